@@ -430,15 +430,19 @@ func c18Registry(c *Ctx) {
 	if !r.Anchor("O-2", "package metrics", pk != nil) {
 		return
 	}
+	// every lock-carrying struct of the package may guard series registries
+	// (the collector today; one registry per family would be the same obligation)
+	n, found := 0, false
 	for _, g := range lockset.FindGuarded([]*types.Package{pk.Types}) {
-		if g.Type != metricsPkg+".Collector" {
-			continue
-		}
+		found = true
 		an := lockset.Analyze(g, c.P.RepoFuncs(), func(fn *ssa.Function) bool { return fn.Parent() == nil })
-		c11GetOrCreate(c, an, "O-2")
+		n += c11GetOrCreate(c, an, "O-2")
+	}
+	if !found {
+		r.Unknown("O-2", "metrics#mutex", "", "no mutex-bearing struct found in package metrics")
 		return
 	}
-	r.Unknown("O-2", "metrics.Collector#mutex", "", "Collector is not recognised as a mutex-bearing struct")
+	r.Floor("O-2", "registry stores", n, 4)
 }
 
 func c18Counting(c *Ctx, sx *symx.Ctx) {
